@@ -6,10 +6,16 @@
    loadDocumentFromHTTP / loadDocumentFromIPFSGW / loadDocumentFromIPFSNode and
    memoryCacheEngine.Get/Set statement by statement.
 
+   External code: github.com/pquerna/cachecontrol is NOT modelled.  Its answer
+   (`cachecontrol.CachableResponse(req, res, Options{})` on a 200 response with a
+   given set of cache headers) is a field of the configuration, `cc`, an arbitrary
+   function in every theorem and a recorded table in the per-run case files.
+
    Not modelled: the Link-header branch of loadDocumentFromHTTP (context link,
    rel=alternate redirect).  The scripted origin of the harness never sends a
    Link header, so `len(linkHeader) > 0` is always false.  Content negotiation,
-   the Accept header and res.Request.URL are not observed. *)
+   the Accept header and res.Request.URL are not observed.  HTTP redirects
+   (3xx handled inside net/http.Client) are not generated. *)
 From Coq Require Import ZArith NArith List String Ascii Bool.
 From GSP Require Import Base.Prelude.
 Import ListNotations.
@@ -19,7 +25,7 @@ Open Scope Z_scope.
 Definition url := string.
 Definition doc := Z.            (* a document is identified by its version number *)
 
-(* ---- cache policy of a response: the header sets the scripted origin sends ---- *)
+(* ---- cache headers of a response: the header sets the scripted origin can send ---- *)
 Inductive policy :=
 | PMaxAge (n : Z)          (* Cache-Control: max-age=n *)
 | PSMaxAge (n : Z)         (* Cache-Control: s-maxage=n *)
@@ -33,30 +39,16 @@ Inductive policy :=
 | PNoCache                 (* Cache-Control: no-cache  (alone) *)
 | PExpiresInvalid          (* Expires: 0 *)
 | PMalformed               (* Cache-Control: max-age=oops  (the library returns an error) *)
-| PBadDate (n : Z).        (* Cache-Control: max-age=n, Date: garbage (the library returns an error) *)
+| PBadDate (n : Z)         (* Cache-Control: max-age=n, Date: garbage (the library returns an error) *)
+| PNoStoreMaxAge (n : Z)   (* Cache-Control: no-store, max-age=n *)
+| PMustRevalidate (n : Z)  (* Cache-Control: must-revalidate, max-age=n *)
+| PNoCacheMaxAge (n : Z).  (* Cache-Control: no-cache, max-age=n *)
 
-(* Table of github.com/pquerna/cachecontrol v0.0.0-20180517163645-1555304b9b35:
-   cachecontrol.CachableResponse(GET request without Cache-Control/Authorization,
-   status 200, Options{} i.e. shared cache).
-   `cachable p` = (err == nil && len(reasons) == 0), the loader's shouldCache.
-   `lifetime p` = Some n when the returned expiry is (time of the call)+n seconds,
-                  None when the returned expiry is the ZERO time.Time.
-   Status 200 is "cacheable by default", so the absence of any freshness
-   information gives NO reason and a ZERO expiry: the loader then stores an entry
-   that is already expired. *)
-Definition cachable (p : policy) : bool :=
-  match p with
-  | PNoStore | PPrivate | PPrivateMaxAge _ | PMalformed | PBadDate _ => false
-  | PMaxAge _ | PSMaxAge _ | PPublicMaxAge _ | PExpiresDate _ | PExpires _
-  | PNone | PNoCache | PExpiresInvalid => true
-  end.
-
-Definition lifetime (p : policy) : option Z :=
-  match p with
-  | PMaxAge n | PSMaxAge n | PPublicMaxAge n | PExpiresDate n | PExpires n
-  | PPrivateMaxAge n => Some n
-  | PNoStore | PPrivate | PNone | PNoCache | PExpiresInvalid | PMalformed | PBadDate _ => None
-  end.
+(* The answer of cachecontrol.CachableResponse for a header set, as the loader uses it:
+   cc_store    = (err == nil && len(reasons) == 0)      — the loader's shouldCache
+   cc_lifetime = Some n when the returned expiry is (time of the call) + n seconds,
+                 None   when the returned expiry is the ZERO time.Time. *)
+Definition ccdec := (bool * option Z)%type.
 
 (* time.Time as used for expiry: the zero value (year 1) or an instant in seconds *)
 Inductive etime := TZero | TAt (z : Z).
@@ -65,16 +57,15 @@ Inductive etime := TZero | TAt (z : Z).
 Definition after (e : etime) (now : Z) : bool :=
   match e with TZero => false | TAt z => Z.ltb now z end.
 
-Definition expiry (p : policy) (now : Z) : etime :=
-  match lifetime p with None => TZero | Some n => TAt (now + n) end.
+Definition expiry_of (l : option Z) (now : Z) : etime :=
+  match l with None => TZero | Some n => TAt (now + n) end.
 
 (* ---- origin ---- *)
-Inductive fkind :=
-| FTransport      (* httpClient.Do / ipfsCli.Cat returns an error *)
-| FStatus         (* status code != 200 (the response carries a cachable header set and a JSON body) *)
-| FBody.          (* status 200, cachable header set, body is not JSON *)
+Inductive body := BJson (d : doc) | BGarbage.       (* a JSON document (version d) / not JSON *)
 
-Inductive response := ROk (d : doc) (p : policy) | RFail (k : fkind).
+Inductive response :=
+| RResp (code : Z) (b : body) (p : policy)          (* an HTTP response: status, body, cache headers *)
+| RTransport.                                       (* httpClient.Do / ipfsCli.Cat returns an error *)
 
 (* which client a request went through *)
 Inductive channel := CHttp | CNode.
@@ -93,8 +84,12 @@ Record config := {
   cache_mode_of : cache_mode;
   ipfs_client : bool;           (* ipfsCli != nil *)
   gateway : string;             (* ipfsGW, "" = not set *)
-  url_ok : url -> bool          (* recorded primitive: http.NewRequest("GET", u, NoBody) succeeds *)
+  url_ok : url -> bool;         (* recorded primitive: http.NewRequest("GET", u, NoBody) succeeds *)
+  cc : policy -> ccdec          (* recorded primitive: cachecontrol.CachableResponse on a 200 response *)
 }.
+
+Definition cc_store (cfg : config) (p : policy) : bool := fst (cc cfg p).
+Definition cc_lifetime (cfg : config) (p : policy) : option Z := snd (cc cfg p).
 
 Definition embedded (cfg : config) : list (url * doc) :=
   match cache_mode_of cfg with CacheMemory emb => emb | _ => [] end.
@@ -105,7 +100,7 @@ Definition cache_on (cfg : config) : bool :=
 
 (* ---- state ---- *)
 Record state := {
-  cache : list (url * (doc * etime));
+  cache : list (url * (doc * etime));   (* memoryCacheEngine.cache (or the third-party engine's map) *)
   now : Z;
   origin : url -> response;
   reqlog : list req             (* newest first *)
@@ -122,9 +117,10 @@ Definition set_origin (st : state) (u : url) (r : response) : state :=
 Definition log_req (st : state) (r : req) : state :=
   {| cache := cache st; now := now st; origin := origin st; reqlog := r :: reqlog st |}.
 
-(* nothing is served anywhere: every URL answers 404 *)
+(* nothing is served anywhere: every URL answers 404 with a non-JSON body *)
+Definition not_found : response := RResp 404 BGarbage PNone.
 Definition init : state :=
-  {| cache := []; now := 0; origin := fun _ => RFail FStatus; reqlog := [] |}.
+  {| cache := []; now := 0; origin := fun _ => not_found; reqlog := [] |}.
 
 (* ---- memoryCacheEngine.Get / Set (and the third-party engine) ---- *)
 Inductive getres := GHit (d : doc) (e : etime) | GMiss | GErr.
@@ -154,7 +150,7 @@ Definition engine_set (cfg : config) (st : state) (k : url) (d : doc) (e : etime
   | None => Some (set_cache st (upsert String.eqb k (d, e) (cache st)))
   end.
 
-(* ---- loadDocumentFromHTTP ---- *)
+(* ---- loadDocumentFromHTTP, from http.NewRequest on ---- *)
 Definition fetch (cfg : config) (st : state) (u : url) : state * res doc :=
   (* http.NewRequest *)
   if negb (url_ok cfg u) then (st, Err "new-request") else
@@ -162,20 +158,27 @@ Definition fetch (cfg : config) (st : state) (u : url) : state * res doc :=
   let r := origin st u in
   let st1 := log_req st (CHttp, u, now st, r) in
   match r with
-  | RFail FTransport => (st1, Err "transport")
-  | RFail FStatus => (st1, Err "status")
-  | RFail FBody => (st1, Err "parse")        (* cachecontrol runs first, the parse error returns before Set *)
-  | ROk d p =>
-      let should_cache := cachable p in
-      let expire := expiry p (now st) in
-      if should_cache && cache_on cfg then
-        match engine_set cfg st1 u d expire with
-        | None => (st1, Err "cache-set")
-        | Some st2 => (st2, Ok d)
-        end
-      else (st1, Ok d)
+  | RTransport => (st1, Err "transport")
+  | RResp code b p =>
+      (* res.StatusCode != http.StatusOK *)
+      if negb (code =? 200) then (st1, Err "status") else
+      (* cachecontrol.CachableResponse: shouldCache, expireTime *)
+      let should_cache := cc_store cfg p in
+      let expire := expiry_of (cc_lifetime cfg p) (now st) in
+      (* ld.DocumentFromReader(res.Body) *)
+      match b with
+      | BGarbage => (st1, Err "parse")
+      | BJson d =>
+          if should_cache && cache_on cfg then
+            match engine_set cfg st1 u d expire with
+            | None => (st1, Err "cache-set")
+            | Some st2 => (st2, Ok d)
+            end
+          else (st1, Ok d)
+      end
   end.
 
+(* loadDocumentFromHTTP: cache lookup and expiry comparison first *)
 Definition load_http (cfg : config) (st : state) (u : url) : state * res doc :=
   if cache_on cfg then
     match engine_get cfg st u with
@@ -185,7 +188,9 @@ Definition load_http (cfg : config) (st : state) (u : url) : state * res doc :=
     end
   else fetch cfg st u.
 
-(* ---- loadDocumentFromIPFSNode: no cache ---- *)
+(* ---- loadDocumentFromIPFSNode: no cache.  The harness's IPFS client answers from the
+   same scripted origin under the key "ipfs://<rest>": transport failure or a status
+   other than 200 makes Cat return an error, otherwise Cat returns the body. ---- *)
 Definition node_key (rest : string) : url := "ipfs://" ++ rest.
 
 Definition load_node (cfg : config) (st : state) (rest : string) : state * res doc :=
@@ -193,9 +198,13 @@ Definition load_node (cfg : config) (st : state) (rest : string) : state * res d
   let r := origin st k in
   let st1 := log_req st (CNode, k, now st, r) in
   match r with
-  | ROk d _ => (st1, Ok d)
-  | RFail FBody => (st1, Err "parse")
-  | RFail _ => (st1, Err "cat")
+  | RTransport => (st1, Err "cat")
+  | RResp code b _ =>
+      if negb (code =? 200) then (st1, Err "cat") else
+      match b with
+      | BGarbage => (st1, Err "parse")
+      | BJson d => (st1, Ok d)
+      end
   end.
 
 (* ---- loadDocumentFromIPFSGW: URL rewriting, then the HTTP path with its cache ---- *)
@@ -249,15 +258,14 @@ Definition load (cfg : config) (st : state) (u : url) : state * res doc :=
 
 (* ---- histories ---- *)
 Inductive op :=
-| Serve (u : url) (v : doc) (p : policy)   (* the origin now serves version v at u with policy p *)
-| Fail (u : url) (k : fkind)               (* the origin now fails at u *)
+| Serve (u : url) (r : response)   (* from now on the origin answers r at u: a new version with a cache
+                                      policy, a non-200 status, an unparsable body, a transport failure *)
 | Load (u : url)
-| Tick (dt : N).                           (* dt seconds pass *)
+| Tick (dt : N).                   (* dt seconds pass *)
 
 Definition step (cfg : config) (st : state) (o : op) : state :=
   match o with
-  | Serve u v p => set_origin st u (ROk v p)
-  | Fail u k => set_origin st u (RFail k)
+  | Serve u r => set_origin st u r
   | Load u => fst (load cfg st u)
   | Tick dt => set_now st (now st + Z.of_N dt)
   end.
@@ -283,6 +291,10 @@ Fixpoint observe (cfg : config) (st : state) (ops : list op) : list (outcome * l
   | o :: t => observe cfg (step cfg st o) t
   end.
 
-(* what engine.Get answers for a key at the end of a history (cache dump) *)
+(* what engine.Get answers for a key at the end of a history (cache dump through the public API) *)
 Definition dump (cfg : config) (st : state) (keys : list url) : list getres :=
   map (engine_get cfg st) keys.
+
+(* the raw cache map at the end of a history (read through the verif hook) *)
+Definition rawdump (st : state) (keys : list url) : list (option (doc * etime)) :=
+  map (fun k => assoc String.eqb k (cache st)) keys.
